@@ -19,4 +19,4 @@ def jobs(tier):
     return J
 
 
-META = {'functions': [], 'undecided_part': '', 'trusted_base': ['ghost byte queue in harness/c11_codec.c', 'models/error.h']}
+META = {'functions': ['write_int', 'write_uint', 'write_float', 'write_double', 'write_ldouble', 'put_ldouble', 'read_token', 'read_int', 'read_uint'], 'undecided_part': '', 'trusted_base': ['ghost byte queue in harness/c11_codec.c', 'models/error.h']}
